@@ -510,7 +510,11 @@ func checkC16(r *core.Run, p *core.Program) {
 			if cal.Name() == "SetReader" {
 				setPos = c.Pos()
 			}
-			if strings.HasPrefix(cal.Name(), "Read") && recvNamed(cal) != nil && recvNamed(cal).Obj().Name() == "Reader" && !firstRead.IsValid() {
+			isRead := func(g *types.Func) bool {
+				return strings.HasPrefix(g.Name(), "Read") && recvNamed(g) != nil && recvNamed(g).Obj().Name() == "Reader"
+			}
+			// a read, or a helper of the decoder that reads (the document header may be read in a helper)
+			if (isRead(cal) || (cal.Pkg() == f.Pkg.Types && recvNamed(cal) != nil && recvNamed(cal) == recvNamed(f.Obj) && a.reaches(cal, isRead))) && !firstRead.IsValid() {
 				firstRead = c.Pos()
 			}
 		})
